@@ -597,6 +597,23 @@ class Normaliser:
                             return ast.copy_location(Renamer({}, dict(zip(keyvars, ks))).visit(clone(value)), node)
                 return node
 
+            def visit_Attribute(self, node):
+                self.generic_visit(node)
+                # a read of a NEW property of the own class: self.p  ->  the body of p
+                if isinstance(node.ctx, ast.Load) and isinstance(node.value, ast.Name) and node.value.id == 'self' and me.fi.cls is not None:
+                    q = '%s.%s' % (me.fi.cls.name, node.attr)
+                    target = me.module.funcs.get(q)
+                    if target is not None and target.is_property() and not is_established(me.fi.rel, q):
+                        call = ast.copy_location(ast.Call(func=node, args=[], keywords=[]), node)
+                        r = me.resolve(call, local_funcs, stack)
+                        if r is not None:
+                            res = me.inline(call, *r, stack)
+                            if res is not None:
+                                pre, repl = res
+                                prefix.extend(pre)
+                                return repl
+                return node
+
             def visit_Call(self, node):
                 self.generic_visit(node)
                 r = me.resolve(node, local_funcs, stack)
